@@ -149,3 +149,19 @@ def two_tables_fixed(flip: bool) -> bool:
     # the same arrangement with concrete texts (one path per value of `flip`): cheap even when the code under test keeps
     # per-row state in containers keyed by symbolic strings
     return _two_tables("1", "2", "<b>-<a>" if flip else "x<a>y<b>z")
+
+
+def two_columns_through_compile(v1: str, v2: str, t: str) -> bool:
+    """
+    pre: len(v1) <= VLEN and len(v2) <= VLEN and len(t) <= TLEN
+    post: _
+    """
+    # columns are applied in HEADER order (a shorter header before a longer one; a value may spell the other placeholder)
+    g = Gen(0)
+    steps = [astgen.mk_step(g, "Action", t, 11, 1, (t, "k", "d", "m"))]
+    ex = [astgen.mk_examples(g, 3, [], ["a", H2], [[v1, v2]], 20)]
+    sc = astgen.mk_scenario(g, t, [], steps, ex, 10, "Scenario Outline")
+    ps = Compiler(IdGenerator()).compile(astgen.mk_doc(g, [], [sc]))
+    e = t.replace("<a>", v1).replace("<" + H2 + ">", v2)
+    return len(ps) == 1 and ps[0]["name"] == e and ps[0]["steps"][0]["text"] == e and \
+        ps[0]["steps"][0]["argument"]["dataTable"]["rows"][0]["cells"][0]["value"] == e
